@@ -518,7 +518,9 @@ func runCursorRandom(c *core.Ctx, typ string) {
 		steps := r.Range(40, 200)
 		if big {
 			steps = 60
-			cu.step("End", 0, 0)
+			if cu.rev {
+				cu.step("End", 0, 0)
+			}
 		}
 		for s := 0; s < steps; s++ {
 			cu.randomStep()
